@@ -251,6 +251,28 @@ func runC14(c *ctx) error {
 			}
 		}
 	}
+	// integers beyond 2^53 inside plugin configs (recorded finding F12: JCS rounds them to doubles)
+	{
+		k := keys[0]
+		mk := func(n int) *pipeline.CommandStep {
+			return &pipeline.CommandStep{Command: "x", Plugins: pipeline.Plugins{{Source: "p#v1", Config: map[string]any{"n": n}}}}
+		}
+		_, pa, ea := signStep(k, mk(9007199254740993), "r", nil)
+		_, pb, eb := signStep(k, mk(9007199254740992), "r", nil)
+		c.res.OracleChecks++
+		if ea == nil && eb == nil && pa == pb {
+			f := core.OracleFailure{What: "two different integers in a plugin config give the same payload", Input: map[string]any{"a": 9007199254740993, "b": 9007199254740992}, Got: pa}
+			if id, ok := c.known.has("bigint-jcs-rounding"); ok {
+				f.Known = id
+			}
+			c.res.Fail(f)
+		}
+		_, pc, _ := signStep(k, mk(9007199254740990), "r", nil)
+		_, pd, _ := signStep(k, mk(9007199254740991), "r", nil)
+		if pc == pd {
+			c.res.Fail(core.OracleFailure{What: "two different integers below 2^53 give the same payload", Input: "9007199254740990 / 9007199254740991"})
+		}
+	}
 	c.res.Rule = "command steps (all depths) of generated pipelines, signed with every key kind (EdDSA, ES512, PS512 JWKs, ES256 crypto.Signer) with random repository URLs and pipeline envs overlapping the step env; payload bytes captured from Sign and Verify and compared with the model; for each step: re-spellings that must collide (fresh parse, nil vs empty env/plugins/matrix, canonical source spelling) and boundary-shifting / single-point variants that must not. Non-trivial = the step has plugins, env or matrix; distinct by payload."
 	mm, total, err := core.RunSessions(c.driver, []*core.Session{sess}, 20, 0)
 	c.res.ModelRequests = total
